@@ -36,6 +36,10 @@ type shape struct {
 	// published everything and slept (virtual time: everything else is parked by then),
 	// opens a gate - so all later events queue up behind a running invocation
 	gate bool
+	// warm: with gate, the first `warm` events are published and fully processed one by one
+	// (Wait after each) before the invocation that blocks - the handler's queue has a
+	// history when the backlog builds up
+	warm int
 	// replayRace: the handler is subscribed with SubscribeWithReplay(Sequential()) over a
 	// store that already holds two events, while another task publishes
 	replayRace bool
@@ -75,6 +79,7 @@ func (in *inst) Body() {
 	A := bp.Types[0]
 	gate := make(chan struct{})
 	gated := false
+	invocations := 0
 	B := bp.Types[1]
 	pubWith := func(t *evt.TypeOps, hctx context.Context, id int) {
 		if hctx == nil {
@@ -94,7 +99,10 @@ func (in *inst) Body() {
 				vrt.Point()
 				cancels[(id/100)%len(cancels)]()
 			}
-			if s.gate && hid == 0 && !gated {
+			if hid == 0 {
+				invocations++
+			}
+			if s.gate && hid == 0 && !gated && invocations > s.warm {
 				gated = true
 				vrt.Recv(gate)
 			}
@@ -137,6 +145,9 @@ func (in *inst) Body() {
 					A.Pub(bus, id)
 				}
 				in.rec.Add("ret", id, 0, "")
+				if s.gate && i < s.warm {
+					bus.Wait()
+				}
 			}
 			if s.gate {
 				vrt.Sleep(time.Millisecond)
@@ -394,6 +405,9 @@ func deepShapes() []shape {
 	return []shape{
 		{name: "async/70-queued-behind-a-blocked-invocation", async: true, gate: true, pubs: []int{70}},
 		{name: "async/130-queued-behind-a-blocked-invocation", async: true, gate: true, pubs: []int{99}},
+		{name: "async/3-processed-then-20-queued-behind-a-blocked-invocation", async: true, gate: true, warm: 3, pubs: []int{24}},
+		{name: "async/5-processed-then-40-queued-behind-a-blocked-invocation", async: true, gate: true, warm: 5, pubs: []int{46}},
+		{name: "async/11-processed-then-30-queued-behind-a-blocked-invocation", async: true, gate: true, warm: 11, pubs: []int{42}},
 	}
 }
 
